@@ -205,7 +205,9 @@ class WebsocketSession(object):
         proxy_parser = proxy.ProxyParser()
         response = None
         while response is None:
-            data = sock.recv(1024)
+            # One byte at a time: what follows the answer of the proxy
+            # comes from the server and must be left in the socket
+            data = sock.recv(1)
             for response in proxy_parser.feed(data):
                 break
         return (
